@@ -4,15 +4,16 @@ EXTEND = {
         # node level: SignerBuilder::new as the three nodes call it
         "C06.C06_node_perm", "C06.C06_node_key", "C06.C06_node_outcome", "C06.C06_dup_party_note",
         "C06.C06_signer_perm", "C06.C06_signer_is_build",
-        # the aggregator's epoch service
-        "C06.C06_service_invariant", "C06.C06_service_coherent", "C06.C06_service_ok_coherent",
+        # the aggregator's epoch service (code after the repairs df18c4ce4, 9c9bc53d6)
+        "C06.C06_service_coherent", "C06.C06_service_snapshot", "C06.C06_service_invariant",
         "C06.C06_service_lists_honest", "C06.C06_service_function_of_set",
         "C06.C06_service_informed_keys", "C06.C06_service_live_is_fresh",
-        "C06.C06_service_failed_update_counterexample", "C06.C06_service_stale_snapshot_counterexample",
+        "C06.C06_service_failed_update_counterexample_before_repair",
+        "C06.C06_service_stale_snapshot_counterexample_before_repair", "C06.C06_service_repaired_examples",
         "RegPaths.build_perm", "RegPaths.build_eq", "RegPaths.build_key", "RegPaths.signerPath_perm",
-        "RegPaths.associate_perm", "RegService.run_inv", "RegService.run_coherent", "RegService.step_ok_coherent",
-        "RegService.run_dataWF", "RegService.keys_function_of_set", "RegService.updateNext_keeps_snapshot",
-        "RegService.informed_keys", "RegService.live_agrees_with_fresh",
+        "RegPaths.associate_perm", "RegService.run_inv", "RegService.run_coherent", "RegService.run_snapshot",
+        "RegService.run_dataWF", "RegService.keys_function_of_set", "RegService.informed_keys",
+        "RegService.live_agrees_with_fresh",
     ],
     "anchors": ["mithril-aggregator/src/services/epoch_service.rs", "mithril-signer/src/services/single_signer.rs",
                 "mithril-signer/src/services/epoch_service.rs", "mithril-client/src/message.rs",
@@ -33,11 +34,13 @@ EXTEND = {
                   "path (stakes from its own store) is proved order independent and equal to the same function when the stores "
                   "agree. The aggregator's MithrilEpochService is a state machine over the registration store (insert-or-replace, "
                   "prune, inform_epoch with the real offsets e-1 / e, update_next_signers_with_stake, precompute_epoch_data, the "
-                  "computed cache): for EVERY operation sequence the cached current key / multi-signer is the one of "
-                  "current_signers_with_stake(); the cached next one is the one of next_signers_with_stake() unless the last update "
-                  "failed to build (a proved counter-example, known finding); after every successful call the cache is coherent; two "
-                  "services reached by any two histories reporting permutations of the same list hold the same keys, slots and "
-                  "totals. K compares, after every step of every history, the real service over the real sqlite stores with the "
+                  "computed cache): for EVERY operation sequence, whenever computed data is present, the cached current key / "
+                  "multi-signer is the one of current_signers_with_stake() and the cached next one the one of "
+                  "next_signers_with_stake(), and next_signers() / total_next_stakes_signers() are those of next_signers_with_stake() "
+                  "(both were false before the fix commits df18c4ce4 and 9c9bc53d6: proved counter-examples on the model of the "
+                  "earlier code, witnesses replayed on the real code every run); two services reached by any two histories "
+                  "reporting permutations of the same list hold the same keys, slots and totals; a live service whose snapshot "
+                  "holds the store's present rows reports what a fresh service computes. K compares, after every step of every history, the real service over the real sqlite stores with the "
                   "model: both signer lists in store order, next_signers, both totals, both keys bit for bit (Lean Blake2b), and the "
                   "slot of every signer in both multi-signers (probed with real single signatures); for the client the literal "
                   "NextAggregateVerificationKey message part; for the signer the signer_index and the key its signature verifies "
@@ -46,12 +49,13 @@ EXTEND = {
                   "signature (raw mithril-stm over the reported list) under every index; when the multi-signer is not the one of the "
                   "reported list nothing verifies and both sides print x. The protocol parameters are the same for all epochs of a "
                   "history (the key does not depend on them; that the multi-signer carries the epoch's parameters is not observed). "
-                  "inform_epoch sums stakes with overflow checks on (dev profile): a total >= 2^64 is the outcome panic; a release "
-                  "build wraps instead. KES / proof-of-possession verdicts are C07's subject: only verifying material is passed.",
+                  "inform_epoch and update_next_signers_with_stake sum stakes with overflow checks on (dev "
+                  "profile): a total >= 2^64 is the outcome panic, which ends the history (a panic ends the node; the state after it is "
+                  "not modelled - in update_next_signers_with_stake the panic strikes after next_signers was replaced); a release build "
+                  "wraps instead. KES / proof-of-possession verdicts are C07's subject: only verifying material is passed.",
     "trusted_base": ["harness bins c06b (aggregator DependenciesBuilder, sqlite), c06c, c06s; mithril-common test fixtures (KES key "
                      "material); raw mithril-stm as reference of the S checks"],
-    "assumptions": ["dev-profile overflow checks (inform_epoch's stake totals)",
+    "assumptions": ["dev-profile overflow checks (stake totals of inform_epoch / update_next_signers_with_stake); a panic ends the node",
                     "stakes below 2^63 in the sqlite stores (a larger stake panics in the signer's stake store: not a value a chain can produce)"],
-    "goals_not_proved": ["C06_service_coherent_goal (cache coherence without side condition): false for the code as it is, "
-                         "counter-example proved (known finding C06-stale-after-failed-update)"],
+    "goals_not_proved": [],
 }
